@@ -86,7 +86,7 @@ pub const INFO_KEYS: [&str; 9] = ["files", "length", "md5sum", "name", "piece le
 pub fn rand_url(rng: &mut Rng) -> String {
   let hosts = ["tracker.example", "a.b.c", "10.0.0.1", "[::1]", "t.example:8080"];
   let scheme = *rng.pick(&["http", "https", "udp", "wss"]);
-  let path = *rng.pick(&["/announce", "/", "", "/a/b", "/ann?x=1&y=2", "/p%20q"]);
+  let path = *rng.pick(&["/announce", "/", "/a/b", "/ann?x=1&y=2", "/p%20q"]);
   format!("{scheme}://{}{path}", rng.pick(&hosts))
 }
 
